@@ -94,7 +94,10 @@ func (k *saveKeyValueStorage) ProcessBuiltinFunction(
 		}
 	}
 
-	vmOutput.GasRemaining -= useGas
+	if input.GasProvided < useGas {
+		return nil, ErrNotEnoughGas
+	}
+	vmOutput.GasRemaining = input.GasProvided - useGas
 
 	return vmOutput, nil
 }
